@@ -90,8 +90,21 @@ def run_roundtrip(case, ctx, mon):
     kind = cfg["kind"]
     is_log = kind in ("log16", "log8")
     orig = state.make(cfg)
-    for op in case["history"]:
+
+    def peek(sk_, n):
+        # read-only questions in the middle of a history (a cached answer must never stand in for the current state)
+        if (case["draw_seed"] + n) % 3:
+            return
+        if kind == "hll":
+            sk_.query()
+        elif kind == "hh":
+            sk_.query(3)
+        else:
+            sk_.query(b"peek")
+
+    for n_h, op in enumerate(case["history"]):
         mon.api(ops.apply_op, orig, op)
+        peek(orig, n_h)
     if kind != "hll":
         orig.n_added_records[1] = np.uint64(case["n_records"])
     all_ops = list(case["history"])
@@ -129,6 +142,7 @@ def run_roundtrip(case, ctx, mon):
             if is_log:
                 state.numba_seed(case["draw_seed"] + 100 * gi + n_op)
             mon.api(ops.apply_op, cur, op)
+            peek(cur, n_op)
             if is_log:
                 state.numba_seed(case["draw_seed"] + 100 * gi + n_op)
             mon.api(ops.apply_op, loaded, op)
@@ -141,6 +155,37 @@ def run_roundtrip(case, ctx, mon):
         if gi >= 2:
             mon.count(f"chains_depth3:{kind}")
     mon.nontrivial(nonempty and changed_again)
+
+
+def run_names(case, ctx, mon):
+    """Several sketches saved under dotted names that share a stem (dated / numbered checkpoints): each file must load
+    back to the sketch that was saved under that name."""
+    import shutil
+    import tempfile
+
+    kind = case["kind"]
+    d = tempfile.mkdtemp(prefix="vmon-names-", dir=os.environ.get("VERIF_TMP") or None)
+    try:
+        made = []
+        for i, stem in enumerate(case["names"]):
+            cfg = dict(case["cfg"])
+            s_ = state.make(cfg)
+            s_.add(b"k-%d" % i, i + 1)
+            s_.add(b"shared", 10 * (i + 1))
+            path = os.path.join(d, stem)
+            mon.api(s_.save, path)
+            made.append((stem, s_, path))
+        for stem, s_, path in made:
+            real = path if path.endswith(".npz") else path + ".npz"  # np.savez appends .npz when it is missing
+            mon.check(os.path.exists(real), "save(name)-writes-name(.npz)", name=stem, files=sorted(os.listdir(d)))
+            loader = {"hh": sk().HeavyHitters.load, "hll": sk().HyperLogLog.load}.get(kind, sk().countmin.load)
+            got = mon.api(loader, real)
+            dd = state.snap_diff(state.snapshot(s_, kind), state.snapshot(got, kind))
+            mon.check(not dd, "file-saved-under-a-name-loads-back-to-that-sketch", name=stem, differs_in=dd, files=sorted(os.listdir(d)), kind=kind)
+        mon.count("name_cases")
+    finally:
+        shutil.rmtree(d, ignore_errors=True)
+    mon.nontrivial(True)
 
 
 def run_dispatch(case, ctx, mon):
@@ -178,6 +223,9 @@ def gen_cases(ctx):
     rng = ctx.rng("cases")
     yield {"type": "dispatch", "width": 3, "depth": 2}
     yield {"type": "dispatch", "width": 1, "depth": 1}
+    for kind in state.ALL_KINDS:
+        cfg = {"kind": kind, "width": 5, "depth": 2, "max_key_len": 6, "p": 8, "seed": 3}
+        yield {"type": "names", "kind": kind, "cfg": cfg, "names": ["daily.2024-01-01", "daily.2024-01-02", "ckpt.0", "ckpt.1", "ckpt.10.npz", "plain", "v1.2.npz"]}
     # scripted corner: heavy hitters of width 1 (phi defaults to exactly 1.0) must reload
     yield {"type": "roundtrip", "cfg": {"kind": "hh", "width": 1, "depth": 2, "max_key_len": 4}, "history": [["add", "6161", 5], ["add", "62", 2]],
            "n_records": 3, "generations": [{"shm": False, "via_module": False, "cont": [["add", "6161", 1]]},
@@ -190,7 +238,9 @@ def gen_cases(ctx):
 
 
 def run_case(case, ctx, mon):
-    if case["type"] == "dispatch":
+    if case["type"] == "names":
+        run_names(case, ctx, mon)
+    elif case["type"] == "dispatch":
         run_dispatch(case, ctx, mon)
     else:
         run_roundtrip(case, ctx, mon)
